@@ -59,11 +59,14 @@ MISSED_FIRST = {
     "C18-j3": "missed: only commands were run, which prune freshly parsed (un-indexed) trees; caught after library-call templates were added",
     "C18-n3": "only evaluated after the second strengthening round (interfering command between two runs of a template); the first version would have missed it",
 }
+# changes written for one property that do not break it within its quantifier but break another one (whose check is the one that must catch them)
+BREAKS = {"C02-k3": "C11", "C18-j2": "C13"}
+REJECTED = {"C04-j2", "C13-j2", "C13-j3"}
 for spec in sys.argv[3:]:
     prop, m = spec.split(":")
     src = os.path.join(outroot, prop + os.environ.get("OUTSUFFIX", "_out"), m)
     sid = "%s-%s%s" % (prop, wave, m)
-    dst = os.path.join("/verif/seeded", sid)
+    dst = os.path.join("/verif/seeded_rejected" if sid in REJECTED else "/verif/seeded", sid)
     os.makedirs(dst, exist_ok=True)
     for f in os.listdir(src):
         p = os.path.join(src, f)
@@ -72,16 +75,19 @@ for spec in sys.argv[3:]:
     readme = open(os.path.join(src, "README.txt")).read() if os.path.exists(os.path.join(src, "README.txt")) else ""
     confirm = open(os.path.join(src, "confirm.txt")).read().strip() if os.path.exists(os.path.join(src, "confirm.txt")) else "not confirmed"
     det = {}
+    breaks = BREAKS.get("%s-%s" % (prop, m))
     for tier in ("quick", "thorough"):
         lp = os.path.join(src, "eval", "check_%s.log" % tier)
+        if breaks and tier == "quick":
+            lp = os.path.join(src, "detected_by_%s_check.log" % breaks)
         if os.path.exists(lp):
             log = open(lp).read()
             classes = re.findall(r"^  class: (.*)$", log, re.M)
-            det[tier] = {"violation_reported": "VIOLATION property=%s" % prop in log, "classes": sorted(set(classes)),
+            det[tier] = {"violation_reported": "VIOLATION property=%s" % (breaks or prop) in log, "classes": sorted(set(classes)),
                          "check_error": "CHECK-ERROR" in log}
     files = sorted(f for f in os.listdir(dst) if f != "meta.json")
     meta = {
-        "id": sid, "property": prop, "wave": wave,
+        "id": sid, "property": breaks or prop, "written_for_property": prop, "wave": wave,
         "origin": "written by an independent sub-agent that was given only the text of the property and its own scratch worktree of /repo (nothing from /verif)",
         "patch": "patch.diff", "demonstration": [f for f in files if f.endswith("_test.go")], "other_files": [f for f in files if not f.endswith("_test.go") and f not in ("patch.diff", "README.txt")],
         "what_it_breaks_and_needs": readme[:2500],
